@@ -21,6 +21,7 @@ EXPLANATION = (
     "C01.ALLLAYERS); iteration over the interval tree's result sets happens only in order-insensitive accumulations "
     "(C06.SETITER); no random/clock/id()/environment inputs on the compute call graph (C06.NONDET).  Value ties with "
     "different widths are excluded by the property."
+    '  Also part of this check: private distributor options per engine (GEN.OPTS-MERGE), layerIndex assigned unconditionally for every layer (C04.LAYERIDX), complete stub chains (C04.STUBCHAIN).'
 )
 ASSUMPTIONS = ["sorted()/list.sort are stable and deterministic", "IntervalTree.overlap returns a set (arbitrary iteration order)"]
 
